@@ -6,7 +6,6 @@ import (
 	"fmt"
 	"os"
 	"path/filepath"
-	"runtime"
 	"sort"
 	"strings"
 )
@@ -102,7 +101,7 @@ func cmdFunc(args []string) {
 		os.MkdirAll(dir, 0o755)
 	}
 	HintSolver = func(obls []*Obligation) {
-		(&Solver{Dir: dir, Timeout: *timeout, Par: runtime.NumCPU(), Prelude: e.Prelude(), QFPrelude: e.QFPrelude(), Eng: e}).SolveAll(obls)
+		(&Solver{Dir: dir, Timeout: *timeout, Par: solverPar(), Prelude: e.Prelude(), QFPrelude: e.QFPrelude(), Eng: e}).SolveAll(obls)
 	}
 	for _, key := range fs.Args() {
 		if e.Contracts.Funcs[key] == nil {
@@ -110,7 +109,7 @@ func cmdFunc(args []string) {
 			continue
 		}
 		res := e.VerifyFunc(key)
-		sv := &Solver{Dir: dir, Timeout: *timeout, Par: runtime.NumCPU(), Prelude: e.Prelude(), QFPrelude: e.QFPrelude(), Eng: e}
+		sv := &Solver{Dir: dir, Timeout: *timeout, Par: solverPar(), Prelude: e.Prelude(), QFPrelude: e.QFPrelude(), Eng: e}
 		sv.SolveAll(res.Obligations)
 		fmt.Printf("== %s: %d obligations, %d unsupported, hints %d (failed %d)\n", key, len(res.Obligations), len(res.Unsupported), res.HintsTried, res.HintsFailed)
 		for _, u := range res.Unsupported {
